@@ -10,6 +10,7 @@ import (
 	"verifsim/harness"
 
 	"github.com/MixinNetwork/mixin/common"
+	"github.com/MixinNetwork/mixin/config"
 	"github.com/MixinNetwork/mixin/crypto"
 )
 
@@ -207,6 +208,33 @@ func c29Variants(m *memRig, kind string) {
 		if tx, err := ref.Node.SimBuildRemove(elected, ts); err == nil {
 			refused(m, "C29", "remove-by-non-elected-node", m.placeOn(m.otherMember(elected), tx, false), "a removal proposed by a node that is not the elected operator")
 		}
+		if c.Halt || m.rng.Chance(0.4) {
+			return
+		}
+		// the removal the elected operator builds in the last seconds of the window, stamped right after it
+		epoch, day := uint64(c.Epoch.UnixNano()), uint64(24*time.Hour)
+		end := uint64(config.KernelNodeAcceptTimeEnd+1) * uint64(time.Hour)
+		t := epoch + (m.now()-epoch)/day*day + end - uint64(2*time.Second)
+		if t <= m.now() {
+			t += day
+		}
+		c.JumpTime(time.Duration(t - m.now()))
+		c.Run(c.Q.Now + 200*time.Millisecond)
+		ts = m.now()
+		elected = ref.Node.SimElect(common.TransactionTypeNodeRemove, ts)
+		tx, err := ref.Node.SimBuildRemove(elected, ts)
+		if err != nil {
+			m.r.out.Probes["variant_not_buildable:remove-outside-window"]++
+			return
+		}
+		for (m.now()-epoch)%day < end+uint64(100*time.Millisecond) && (m.now()-epoch)%day > uint64(12*time.Hour) {
+			c.Run(c.Q.Now + 200*time.Millisecond)
+		}
+		if ref.Node.SimElect(common.TransactionTypeNodeRemove, m.now()) != elected {
+			m.r.out.Probes["variant_not_buildable:remove-outside-window"]++
+			return
+		}
+		refused(m, "C29", "remove-outside-window", m.placeOn(elected, tx, false), "a removal built inside the node-operation hours but stamped after they ended")
 	}
 }
 
@@ -467,6 +495,14 @@ func c29Exec(p *harness.Plan) *harness.Outcome {
 		c29Elections(m, &checks)
 		r.c.Run(r.c.Q.Now + 3*time.Second)
 		for _, it := range m.refused {
+			if m.laterValid(it) {
+				// the same transaction was finalized by a valid operation afterwards: a second certified
+				// snapshot carrying an already finalized removal changes nothing and is let in (the
+				// re-delivery shortcut of validateNodeRemoveSnapshot); the operation itself happened inside
+				// its window
+				r.out.Probes["late_check_skipped:same_transaction_finalized_validly_later"]++
+				continue
+			}
 			if w := m.anywhere(it); w >= 0 && !r.c.Halt {
 				r.c.Violate("C29", "forbidden-operation-finalized:late", fmt.Sprintf("n%d stored forbidden snapshot %s", w, it.snap.Hash.String()[:8]), r.c.Nodes[w])
 			}
@@ -535,4 +571,16 @@ func init() {
 		QuickRuns:  64, ThoroughRuns: 2000,
 		QuickWall: 30 * time.Second, ThoroughWall: 12 * time.Minute,
 	})
+}
+
+// laterValid reports whether the transaction of a refused variant was finalized
+// by a valid operation of the history afterwards.
+func (m *memRig) laterValid(it *injected) bool {
+	h := it.tx.PayloadHash()
+	for _, rec := range m.records {
+		if rec.tx == h {
+			return true
+		}
+	}
+	return false
 }
